@@ -43,7 +43,7 @@ def attr_pair(mode, base):
 
 
 VALUE_MODES = ["same", "disjoint", "overlap", "src_empty", "dest_empty", "text_convertible", "unconvertible",
-               "float_to_int", "int_to_string", "multiline", "dates"]
+               "float_to_int", "int_to_string", "multiline", "dates", "unconvertible_dest_empty"]
 
 
 def values_for(mode):
@@ -62,6 +62,8 @@ def values_for(mode):
         return "int", [1], "string", ["2", "7"], True
     if mode == "unconvertible":
         return "int", [1], "string", ["abc"], False
+    if mode == "unconvertible_dest_empty":
+        return "int", [], "string", ["abc"], False
     if mode == "float_to_int":
         return "int", [1], "float", [2.0, 3.5], True
     if mode == "int_to_string":
@@ -88,7 +90,7 @@ PROP = st.fixed_dictionaries({
     "where": st.sampled_from(["both", "both", "both", "src", "dest"]),
     "values": st.sampled_from(VALUE_MODES),
     "unit": st.sampled_from(["none", "d", "s", "eq", "conflict", "eq", "none"]),
-    "unc": st.sampled_from(["none", "d", "s", "eq", "conflict", "none"]),
+    "unc": st.sampled_from(["none", "d", "s", "eq", "conflict", "none", "d0", "d0_conflict", "eq0"]),
     "definition": st.sampled_from(ATTR_MODES + ["none", "eq"]),
     "reference": st.sampled_from(ATTR_MODES + ["none"]),
     "value_origin": st.sampled_from(ATTR_MODES + ["none"]),
@@ -125,7 +127,8 @@ def build_pair(root):
         ddt, dvals, sdt, svals, ok = values_for(spec["values"])
         u_d, u_s = attr_pair(spec["unit"], "mV")
         unc_d, unc_s = {"none": (None, None), "d": (0.5, None), "s": (None, 0.5), "eq": (0.5, 0.5),
-                        "conflict": (0.5, 0.75)}[spec["unc"]]
+                        "conflict": (0.5, 0.75), "d0": (0.0, None), "d0_conflict": (0, 0.5),
+                        "eq0": (0, 0.0)}[spec["unc"]]
         kw_d, kw_s = {}, {}
         for a in TEXT_ATTRS:
             kw_d[a], kw_s[a] = attr_pair(spec[a], "the %s of %s" % (a, name))
@@ -143,7 +146,7 @@ def build_pair(root):
                 facts["conflicts"].append((here, "dtype"))
             if spec["unit"] == "conflict":
                 facts["conflicts"].append((here, "unit"))
-            if spec["unc"] == "conflict":
+            if spec["unc"] in ("conflict", "d0_conflict"):
                 facts["conflicts"].append((here, "uncertainty"))
             for a in TEXT_ATTRS:
                 if spec[a] == "conflict":
@@ -407,7 +410,8 @@ def skeleton_node(depth, fan=2):
 PLANTS = [("prop", "values", "unconvertible"), ("prop", "unit", "conflict"), ("prop", "unc", "conflict"),
           ("prop", "definition", "conflict"), ("prop", "reference", "conflict"),
           ("prop", "value_origin", "conflict"), ("prop", "values", "text_convertible"),
-          ("prop", "values", "multiline"),
+          ("prop", "values", "multiline"), ("prop", "values", "unconvertible_dest_empty"),
+          ("prop", "unc", "d0_conflict"),
           ("sec", "definition", "conflict"), ("sec", "reference", "conflict"), ("sec", "where", "both_difftype")]
 
 
